@@ -453,10 +453,14 @@ func (i *IfUnless) Evaluation(
 	t *base.T,
 ) (err error) {
 
-	// clear
-	i.originalTs = make(map[string][]base.T)
-	i.narrowTs = make(map[string][]base.T)
-	i.ifNarrowTs = make(map[string][]base.T)
+	// conditionals nest, and DynamicEvaluators holds one instance per keyword:
+	// every evaluation works on its own narrowing state
+	i = &IfUnless{
+		conditionType: i.conditionType,
+		originalTs:    make(map[string][]base.T),
+		narrowTs:      make(map[string][]base.T),
+		ifNarrowTs:    make(map[string][]base.T),
+	}
 
 	isParsingExpr := p.IsParsingExpression()
 
